@@ -159,7 +159,7 @@ func run(tapeJSON json.RawMessage, res *core.Result) {
 		res.Verdict, res.Harness = "invalid", err.Error()
 		return
 	}
-	if len(tp.Reqs) < 1 || len(tp.Reqs) > 16 || tp.Settings.SkewS < 0 || tp.Settings.SkewS > 86400 {
+	if len(tp.Reqs) < 1 || len(tp.Reqs) > 400 || tp.Settings.SkewS < 0 || tp.Settings.SkewS > 86400 {
 		res.Verdict, res.Harness = "invalid", "shape"
 		return
 	}
